@@ -163,3 +163,121 @@ Definition group_member_max_cfg : Z := 1000.
 
 (* the order used by the executable model: all entries, in arrival order *)
 Definition all_positions (thr : nat) : list nat := seq 0 thr.
+
+(* ======================================================================================
+   Additions (group level, the code's own subset selection, the DKG node state machine)
+   ====================================================================================== *)
+
+(* ---- sig.go recoverSignature at the level of group elements ----
+   [G] = bn256.G1 with its operations: the zero value / point at infinity, Add, ScalarMult by a scalar.
+     sig := nil; for i: new_sig := sigs[i] * delta_i; if i == 0 { sig = new_sig } else { sig.add(new_sig) } *)
+Record gops (T G : Type) := GOps { gzero : G; gadd : G -> G -> G; gsmul : T -> G -> G }.
+Arguments GOps {T G}.
+Arguments gzero {T G}. Arguments gadd {T G}. Arguments gsmul {T G}.
+
+Section GroupLevel.
+Context {T G : Type} (o : ops T) (go : gops T G).
+
+Fixpoint recover_sig_loop (xs : list T) (sigs : list G) (i : nat) (acc : G) : G :=
+  match sigs with
+  | [] => acc
+  | s :: rest => recover_sig_loop xs rest (S i) (go.(gadd) acc (go.(gsmul) (delta o xs i) s))
+  end.
+
+Definition recover_sig (xs : list T) (sigs : list G) : G :=
+  match sigs with
+  | [] => go.(gzero)
+  | s0 :: rest => recover_sig_loop xs rest 1 (go.(gsmul) (delta o xs 0) s0)
+  end.
+
+(* Sign(sec, msg) = H(msg) * sec; GeneratePubkey(sec) = g2 * sec; AggregatePubkeys = sum *)
+Definition sign_g (sk : T) (hm : G) : G := go.(gsmul) sk hm.
+
+(* pub := pubs[0]; for i >= 1: pub.add(pubs[i]) *)
+Definition gsum (l : list G) : G :=
+  match l with
+  | [] => go.(gzero)
+  | a :: l' => fold_left go.(gadd) l' a
+  end.
+End GroupLevel.
+
+(* ---- base.Rand.RandomPerm(n, k) and sig.go getRandomKSignInfo / RecoverGroupSignature ----
+     l := [0..n); for i < k { j := r.Deri(i).Modulo(n-i) + i; l[i], l[j] = l[j], l[i] }; return l[:k]
+   the derived random numbers are the parameter [js] (js_i = the j of round i). *)
+Fixpoint upd {A} (l : list A) (i : nat) (v : A) : list A :=
+  match l, i with
+  | [], _ => []
+  | _ :: t, O => v :: t
+  | h :: t, S i' => h :: upd t i' v
+  end.
+
+Definition swap (l : list nat) (i j : nat) : list nat :=
+  let a := nth i l 0%nat in let b := nth j l 0%nat in upd (upd l i b) j a.
+
+Fixpoint perm_steps (l : list nat) (i : nat) (js : list nat) : list nat :=
+  match js with
+  | [] => l
+  | j :: js' => perm_steps (swap l i j) (S i) js'
+  end.
+
+Definition random_perm (n k : nat) (js : list nat) : list nat :=
+  firstn k (perm_steps (seq 0 n) 0 (firstn k js)).
+
+(* sort.Ints *)
+Fixpoint ins_nat (a : nat) (l : list nat) : list nat :=
+  match l with
+  | [] => [a]
+  | b :: t => if Nat.leb a b then a :: l else b :: ins_nat a t
+  end.
+Definition sort_ints (l : list nat) : list nat := fold_right ins_nat [] l.
+
+(* getRandomKSignInfo's loop over the map (entries in this iteration's order):
+     i, j := 0, 0; for key, sign := range m { if i == indexs[j] { ret[key] = sign; j++; if j >= k { break } }; i++ } *)
+Fixpoint select_loop {A} (entries : list A) (idx : list nat) (i : nat) : list A :=
+  match entries, idx with
+  | _, [] => []
+  | [], _ => []
+  | e :: es, ix :: idx' =>
+      if Nat.eqb i ix then e :: select_loop es idx' (S i) else select_loop es idx (S i)
+  end.
+
+(* RecoverGroupSignature(memberSignMap, k): which positions of a reference list of the n map entries
+   end up, in which order, in ids[]/sigs[].  [pi1] = iteration order of the map inside
+   getRandomKSignInfo (when k < n), else of the loop in RecoverGroupSignature; [pi2] = iteration
+   order of the k-entry map returned by getRandomKSignInfo; the loop stops after k entries. *)
+Definition code_selection (n k : nat) (pi1 js pi2 : list nat) : list nat :=
+  if Nat.ltb k n then
+    pick 0%nat pi2 (select_loop pi1 (sort_ints (random_perm n k js)) 0)
+  else firstn k pi1.
+
+(* ---- group_node_info.go: one member's pool of received share pieces ----
+   receivedSharePiece: dealer id -> (share, dealer's seed public key (in the exponent)).
+   handleSharePiece: -1 for a second piece of the same dealer; when the pool holds groupMemberNum
+   pieces: aggregateKeys (sums over the Go map, iteration orders [ord1] for genGroupPubKey and [ord2]
+   for genMinerSignSecKey) and 1 (or -1 when the aggregated secret key is not IsValid, i.e. 0);
+   otherwise 0. *)
+Section Node.
+Context {T : Type} (o : ops T) (ideq : T -> T -> bool) (iszero : T -> bool).
+
+Record node := Node { n_num : nat; n_pool : list (T * (T * T)); n_sk : T; n_gpk : T; n_done : bool }.
+
+Definition node_new (n : nat) : node := Node n [] o.(o0) o.(o0) false.
+
+Fixpoint pool_has (id : T) (p : list (T * (T * T))) : bool :=
+  match p with [] => false | (i, _) :: p' => ideq i id || pool_has id p' end.
+
+Definition node_handle (ord1 ord2 : list nat) (nd : node) (id share pub : T) : node * Z :=
+  if pool_has id nd.(n_pool) then (nd, (-1)%Z)
+  else
+    let pool := nd.(n_pool) ++ [(id, (share, pub))] in
+    if Nat.eqb (length pool) nd.(n_num) then
+      let d := (o.(o0), (o.(o0), o.(o0))) in
+      let gpk := osum o (map (fun e => snd (snd e)) (pick d ord1 pool)) in
+      let sk := osum o (map (fun e => fst (snd e)) (pick d ord2 pool)) in
+      (Node nd.(n_num) pool sk gpk true, if iszero sk then (-1)%Z else 1%Z)
+    else (Node nd.(n_num) pool nd.(n_sk) nd.(n_gpk) nd.(n_done), 0%Z).
+
+(* genSharePiece + getSeedPubKey of dealer (id, coefficients) for the member with id x *)
+Definition piece_for (x : T) (dealer : T * list T) : T * T * T :=
+  (fst dealer, eval_poly o (snd dealer) x, nth 0 (snd dealer) o.(o0)).
+End Node.
